@@ -207,25 +207,35 @@ class CountingCount:
         return next(self.it)
 
 
+class _CountingIter:
+    """Plain iterator objects (no generators: nothing to finalise while a runaway case unwinds)."""
+
+    def __init__(self, bud, it):
+        self.bud = bud
+        self.it = it
+
+    def __iter__(self):
+        return self
+
+    def __next__(self):
+        self.bud.pull()
+        return next(self.it)
+
+
 def _counting_range(bud):
     class CountingRange:
         def __init__(self, *a):
             self.r = range(*a)
 
         def __iter__(self):
-            bud_ = bud
-            for x in self.r:
-                bud_.pull()
-                yield x
+            return _CountingIter(bud, iter(self.r))
 
     return CountingRange
 
 
 def _counting_infinite(bud):
     def infinite():
-        while True:
-            bud.pull()
-            yield 0
+        return _CountingIter(bud, itertools.repeat(0))
 
     return infinite
 
